@@ -412,6 +412,8 @@ async fn add_adf_problem(
 
             #[cfg(feature = "mock_long_computations")]
             std::thread::sleep(Duration::from_secs(20));
+            #[cfg(feature = "verif_hooks")]
+            crate::config::verif_task_delay();
 
             let parser = AdfParser::default();
             let parse_result = parser.parse()(&adf_problem_input.code)
@@ -572,6 +574,8 @@ async fn solve_adf_problem(
 
             #[cfg(feature = "mock_long_computations")]
             std::thread::sleep(Duration::from_secs(20));
+            #[cfg(feature = "verif_hooks")]
+            crate::config::verif_task_delay();
 
             let mut adf: Adf = simp_adf.into();
 
